@@ -70,11 +70,12 @@ def units(tier):
     u = [{"name": "gait_grid", "timeout": 2400}, {"name": "gait_history", "timeout": 2400},
          {"name": "foot_height", "timeout": 2400}, {"name": "randomize_default", "timeout": 2400},
          {"name": "randomize_custom", "timeout": 2400}, {"name": "command", "timeout": 2400},
-         {"name": "standing_initial", "timeout": 3600}]
-    if tier == "thorough":
-        u += [{"name": "standing_rollout", "timeout": 3600}, {"name": "standing_custom", "timeout": 3600},
-              {"name": "loco_default", "timeout": 3600}, {"name": "loco_custom", "timeout": 3600},
-              {"name": "standup_default", "timeout": 3600}, {"name": "standup_custom", "timeout": 3600}]
+         {"name": "standing_initial", "timeout": 3600},
+         # stepped episodes of the other two tasks (about 30 s each with the quick sample sizes)
+         {"name": "loco_default", "timeout": 3600}, {"name": "loco_custom", "timeout": 3600},
+         {"name": "standup_default", "timeout": 3600}, {"name": "standup_custom", "timeout": 3600},
+         {"name": "standing_rollout", "timeout": 3600}, {"name": "standing_custom", "timeout": 3600}]
+    # both tiers run every unit; the thorough tier differs by sample sizes (ctx.n) only
     return u
 
 
